@@ -47,3 +47,28 @@ Proof.
   pose proof (item_of_continued_statement ign line1 lab l1 nm p1 ms bn pn src lc fifo SL NE NH1 EL EN1 P1 OK Bn Pn PNE NBn SLL NS) as FR.
   do 7 eexists. split; [exact FI|]. split; [exact FR|]. split; [reflexivity|Lia.lia].
 Qed.
+
+(* ---- column 6 and the label field (the two places repaired in the code with commits b269106 and a8fb4fc) *)
+Lemma zero_in_column_six_is_an_initial_line a1 a2 a3 a4 a5 rest :
+  is_fix_cont (a1 :: a2 :: a3 :: a4 :: a5 :: "0"%char :: rest) = false.
+Proof.
+  unfold is_fix_cont. cbn [nth]. change (aeqb "0"%char "0"%char) with true. cbn [negb].
+  rewrite andb_false_r. reflexivity.
+Qed.
+Lemma blank_in_column_six_is_an_initial_line a1 a2 a3 a4 a5 rest :
+  is_fix_cont (a1 :: a2 :: a3 :: a4 :: a5 :: " "%char :: rest) = false.
+Proof.
+  unfold is_fix_cont. cbn [nth]. change (aeqb " "%char " "%char) with true. cbn [negb].
+  rewrite andb_false_r. reflexivity.
+Qed.
+Lemma label_chars_app a b : label_chars (a ++ b) = label_chars a ++ label_chars b.
+Proof. apply filter_app. Qed.
+(* blanks anywhere in the label field do not change the label *)
+Lemma label_chars_blanks a b t : blanks b -> label_chars (a ++ b ++ t) = label_chars (a ++ t).
+Proof.
+  intros B. rewrite !label_chars_app. f_equal.
+  assert (E : label_chars b = []).
+  { unfold blanks in B. unfold label_chars. induction b as [|x r IH]; [reflexivity|]. cbn in *.
+    apply andb_true_iff in B as [B1 B2]. rewrite B1. cbn. apply IH. exact B2. }
+  now rewrite E.
+Qed.
